@@ -28,7 +28,7 @@ theorem runOK_of_wf (pol : Cfg → Policy) (F : Nat) : ∀ (ops : List Op) (e : 
     refine ⟨?_, runOK_of_wf pol F ops _ (fun o ho => h o (List.mem_cons_of_mem _ ho))⟩
     have hop := h op (by simp)
     cases op with
-    | fit rows labels => exact ⟨hop.1, hop.2, fun _ _ _ => trivial, fun _ _ _ _ _ => trivial⟩
+    | fit rows labels => exact ⟨hop.1, hop.2, fun _ _ _ _ => trivial, fun _ _ _ _ _ => trivial⟩
     | refine n data im => exact ⟨hop, fun _ _ _ _ => trivial, fun _ _ _ _ _ => trivial⟩
     | recluster it extra perms stop => exact fun _ _ _ _ _ _ _ _ => trivial
     | setMerge c t th b => exact hop
